@@ -3,6 +3,7 @@ package regexp2
 import (
 	"errors"
 	"math"
+	"slices"
 )
 
 // Split splits the given input string using the pattern and returns
@@ -36,18 +37,31 @@ func (re *Regexp) Split(input string, count int) ([]string, error) {
 	var txt []rune
 
 	m, err := re.FindStringMatch(input)
+	rtl := re.RightToLeft()
 
 	for ; m != nil && count > 0; m, err = re.FindNextMatch(m) {
+		if rtl && txt == nil {
+			// right-to-left matches arrive last-to-first: start from the end
+			priorIndex = len(m.text.runes)
+		}
 		txt = m.text.runes
 		// if we have an m, we don't have an err
 		// append our match
-		retVal = append(retVal, string(txt[priorIndex:m.RuneIndex]))
+		if rtl {
+			retVal = append(retVal, string(txt[m.RuneIndex+m.RuneLength:priorIndex]))
+		} else {
+			retVal = append(retVal, string(txt[priorIndex:m.RuneIndex]))
+		}
 		// append any capture groups, skipping group 0
 		gs := m.Groups()
 		for i := 1; i < len(gs); i++ {
 			retVal = append(retVal, gs[i].String())
 		}
-		priorIndex = m.RuneIndex + m.RuneLength
+		if rtl {
+			priorIndex = m.RuneIndex
+		} else {
+			priorIndex = m.RuneIndex + m.RuneLength
+		}
 		count--
 	}
 
@@ -61,7 +75,13 @@ func (re *Regexp) Split(input string, count int) ([]string, error) {
 	}
 
 	// append our remainder
-	retVal = append(retVal, string(txt[priorIndex:]))
+	if rtl {
+		// the pieces were collected last-to-first
+		retVal = append(retVal, string(txt[:priorIndex]))
+		slices.Reverse(retVal)
+	} else {
+		retVal = append(retVal, string(txt[priorIndex:]))
+	}
 
 	return retVal, nil
 }
